@@ -8,10 +8,21 @@ var (
 
 type Topic []byte
 
+// Next returns the first level of t and the remaining levels.
+// The remainder is nil once the last level has been returned; an empty,
+// non-nil remainder means one more (empty) level follows a trailing separator.
 func (t Topic) Next() (Topic, string) {
 	end := bytes.IndexByte(t, SEP)
 	if end < 0 {
 		return nil, string(t)
 	}
 	return t[end+1:], string(t[:end])
+}
+
+// Levels wraps a raw topic so that the empty topic still has one (empty) level.
+func Levels(b []byte) Topic {
+	if b == nil {
+		return Topic{}
+	}
+	return Topic(b)
 }
